@@ -150,4 +150,52 @@ datagram); it equals the regenerated `default:` tag of the reporter's `--reporte
 *Edit detected:* a different flag default: the model constant no longer matches and this theorem breaks. -/
 theorem facts_udp_buffer_is_model : UdpServer.defaultBufferSize = Facts.reporterBufferDefault := by decide
 
+/-- **The browser path never writes state.**  Supports the C06 clause "state is unchanged unless the input is a well-formed
+report / REST submission": the TCP browser and the listing use case reach the storage through exactly one repository
+method, `Filter`, which is a read.  Regenerated by go/ast on every run (`harness/internal/facts/finer_readonly.go`):
+
+* `browserPathFields` — every struct field of `internal/browser/browser.go` and
+  `internal/core/usecases/listservers/listservers.go`: the handler holds **one** use case (`uc listservers.UseCase`) and no
+  repository; the use case holds **one** repository (`serverRepo repositories.ServerRepository`) — no instance
+  repository, no probe queue;
+* `browserPathStoreCalls` — every use of such a field in any method of the two files: `h.uc.Execute` in `process`,
+  `uc.serverRepo.Filter` in `Execute`, nothing else (a field passed on or stored elsewhere instead of being called would
+  appear as an "(escapes…)" row);
+* and, from the store inventory of C09/C10 (`storeCmdSites`): every Redis command issued by `servers.Filter` and its
+  helpers (`filterServerKeys`, `buildTimestampFilters`, `buildStatusFilters`) is a **read** (`HMGET`, `ZRANGE…`,
+  `SINTER`, `SUNION`); the write sites of `servers.go` all sit in `save` / `remove`.
+
+In the model this is `listServers` (Model/UseCases: `.now`, then `.filterServers`, no other call) and `Reader` of the
+Redis-level machine (`C10.rstep_store`: a reader step leaves the store untouched).
+*Edit detected:* a second repository on `UseCase` or `Handler` (say, `instanceRepo`), a call of `Add` / `Update` / `Remove` /
+`Count…` from `Execute` or `process`, handing `uc.serverRepo` to a helper, or a write command added to `Filter`'s helpers. -/
+theorem facts_browser_reads_only :
+    Facts.browserPathStoreCalls =
+      [("listservers.go", "Execute", "uc.serverRepo", "repositories.ServerRepository", "Filter"),
+       ("browser.go", "process", "h.uc", "listservers.UseCase", "Execute")] ∧
+    Facts.browserPathFields =
+      [("listservers.go", "UseCase", "serverRepo", "repositories.ServerRepository"),
+       ("listservers.go", "UseCase", "clock", "clockwork.Clock"),
+       ("listservers.go", "Request", "query", "query.Query"),
+       ("listservers.go", "Request", "recentness", "time.Duration"),
+       ("listservers.go", "Request", "discoveryStatus", "ds.DiscoveryStatus"),
+       ("browser.go", "HandlerOpts", "Liveness", "time.Duration"),
+       ("browser.go", "Handler", "metrics", "*metrics.Collector"),
+       ("browser.go", "Handler", "logger", "*zerolog.Logger"),
+       ("browser.go", "Handler", "clock", "clockwork.Clock"),
+       ("browser.go", "Handler", "uc", "listservers.UseCase"),
+       ("browser.go", "Handler", "opts", "HandlerOpts"),
+       ("browser.go", "Handler", "gameKey", "[6]byte")] ∧
+    -- the only repository method reached from the browser path is `Filter`
+    (∀ x ∈ Facts.browserPathStoreCalls, x.2.2.2.1 = "repositories.ServerRepository" → x.2.2.2.2 = "Filter") ∧
+    -- `Filter` and its helpers issue read commands only …
+    (∀ x ∈ Facts.storeCmdSites, x.1 = "servers" →
+      (x.2.1 = "Filter" ∨ x.2.1 = "filterServerKeys" ∨ x.2.1 = "buildTimestampFilters" ∨ x.2.1 = "buildStatusFilters" ∨
+        x.2.1 = "resolveFilterKeys") → x.2.2.2.2.1 = "read") ∧
+    -- … and there are such sites (the clause above is not vacuous)
+    ("servers", "Filter", "r.client", "HMGet", "read", "bare") ∈ Facts.storeCmdSites ∧
+    -- every write site of servers.go is in `save` or `remove`
+    (∀ x ∈ Facts.storeCmdSites, x.1 = "servers" → x.2.2.2.2.1 = "write" → x.2.1 = "save" ∨ x.2.1 = "remove") := by
+  refine ⟨by decide, by decide, by decide, by decide, by decide, by decide⟩
+
 end Swat4.C06
